@@ -284,6 +284,7 @@ def run(chk: Check, only_numeric: bool = False) -> None:
         run_static_lengths_are_exact(chk, ix)
         run_inherited_class_attributes(chk, ix)
         run_dict_helpers_dispatch_to_same_method(chk, ix, funcs)
+        run_loop_carried_registers_created_once(chk, ix)
         pass_order(chk, ix)
 
 
@@ -963,3 +964,45 @@ def run_dict_helpers_dispatch_to_same_method(chk: Check, ix, funcs) -> None:
             r.ok(key, f"mypyc/lib-rt:{nm}")
         else:
             r.violation(key, f"mypyc/lib-rt:{nm}", f"{nm} never reaches a call of the object's `setdefault` method (it calls {sorted(x for x in info[nm] if not x.startswith('member:'))[:6]}): for a defaultdict the look-up runs __missing__, so `d.setdefault(k, [])` stores and returns the factory's value")
+
+
+def run_loop_carried_registers_created_once(chk: Check, ix) -> None:
+    """R05.20: a register that accumulates a fact over the iterations of a builder loop is created once."""
+    from ..cfg import branch_conditions
+    r20 = chk.rule("R05.20", "irbuild loops that emit code per argument carry facts from one argument to the next in an IR register created lazily: a local `V` is None before the loop, every iteration works on a copy `W = V` and ends with `V = W` (LowLevelIRBuilder._construct_varargs: 'an earlier optional positional argument was missing', which decides whether later arguments go by position or by name). A `W = Register(...)` inside the loop is therefore guarded by a test that V is still unset (`not V` / `V is None`); an unguarded creation starts a fresh register for every argument, so an argument only knows about its immediate predecessor and `f(b=20, c=30)` reaches a glue callee as f(30, b=20)", floor=1)
+    n = 0
+    for mn, m in sorted(ix.modules.items()):
+        if not mn.startswith("mypyc.irbuild."):
+            continue
+        for f in list(m.functions.values()) + [mm for c in m.classes.values() for mm in c.methods.values()]:
+            par = None
+            for loop in ast.walk(f.node):
+                if not isinstance(loop, (ast.For, ast.While)):
+                    continue
+                body_nodes = [x for st in loop.body for x in ast.walk(st)]
+                copies = {(a.targets[0].id, a.value.id) for a in body_nodes if isinstance(a, ast.Assign) and len(a.targets) == 1 and isinstance(a.targets[0], ast.Name) and isinstance(a.value, ast.Name)}
+                for w, v in sorted(copies):
+                    if (v, w) not in copies or w == v:
+                        continue
+                    # v is the carried name if it is None-initialised outside the loop
+                    inits = [a for a in ast.walk(f.node) if a not in body_nodes and isinstance(a, (ast.Assign, ast.AnnAssign)) and isinstance((a.targets[0] if isinstance(a, ast.Assign) else a.target), ast.Name) and (a.targets[0] if isinstance(a, ast.Assign) else a.target).id == v and isinstance(a.value, ast.Constant) and a.value.value is None]
+                    if not inits:
+                        continue
+                    creations = [a for a in body_nodes if isinstance(a, ast.Assign) and len(a.targets) == 1 and isinstance(a.targets[0], ast.Name) and a.targets[0].id == w and isinstance(a.value, ast.Call) and call_name(a.value) == "Register"]
+                    if not creations:
+                        continue
+                    par = par or f.module.parents()
+                    for cr in creations:
+                        n += 1
+                        key = f"{f.name}: the loop-carried register `{v}` is created only while it is unset"
+                        pos, neg = branch_conditions(par, f.node, cr)
+                        atoms = []
+                        for t in pos:
+                            atoms += t.values if isinstance(t, ast.BoolOp) and isinstance(t.op, ast.And) else [t]
+                        ok = any(norm(t) in (f"not {v}", f"{v} is None") for t in atoms) or any(norm(t) in (v, f"{v} is not None") for t in neg)
+                        if ok:
+                            r20.ok(key, f.loc(cr))
+                        else:
+                            r20.violation(key, f.loc(cr), f"`{norm(cr)}` is reached under {[norm(t)[:40] for t in pos]} with no test that `{v}` is still None: every iteration replaces the register, and the fact recorded for earlier arguments ('one of them was missing') is lost for all but the next argument")
+    if n < 1:
+        raise AnalysisError("irbuild: no lazily created loop-carried register found (expected seen_empty_reg in _construct_varargs)")
